@@ -62,6 +62,14 @@ def deserialize_value(ty, value):
     '''
     uty = ty.upper()
     
+    try:
+        return _deserialize_value(uty, value)
+    except ValueError:
+        # the serialized value does not have the lexical form of its type
+        return None
+
+
+def _deserialize_value(uty, value):
     if uty == 'BOOLEAN':
         if value.isdigit():
             return bool(int(value))
